@@ -139,7 +139,7 @@ func contractsCmd(args []string) {
 	match := fs.String("match", ".", "regexp on function names")
 	dump := fs.String("dump", "", "dump failed scripts")
 	fs.Parse(args)
-	p, err := vc.Load("/repo", vc.ModPath, vc.ModPath+"/pkg/...")
+	p, err := vc.Load("/repo", vc.ModPath, vc.ModPath+"/pkg/...", vc.ModPath+"/pp")
 	if err != nil {
 		fmt.Println(err)
 		os.Exit(2)
@@ -151,6 +151,9 @@ func contractsCmd(args []string) {
 	}
 	cs.Attach(p)
 	fmt.Println("contract files:", files)
+	if os.Getenv("SLIPVC_DEBUG") != "" {
+		fmt.Println("pure methods:", cs.PureMethods, "stable:", cs.StableStructs)
+	}
 	re := regexp.MustCompile(*match)
 	for _, name := range cs.Order {
 		if !re.MatchString(name) {
